@@ -46,6 +46,61 @@ type c16PreCase struct {
 	Addr  int    `json:"addr"`
 	Input string `json:"input"` // hex
 	Kind  string `json:"kind"`
+	// memory-operand cases (Kind "memop"): bytecode run as the code of a contract
+	Code     string `json:"code,omitempty"`
+	Op       int    `json:"op,omitempty"`
+	MustFail bool   `json:"mustFail,omitempty"` // the operands name >= 4 GiB of memory: the step must fail cleanly
+	Operands string `json:"operands,omitempty"`
+}
+
+// c16MemOpCases: every memory-touching instruction with adversarial offset / size operands
+func c16MemOpCases(w *c16World) []c16PreCase {
+	p2 := func(n uint) *big.Int { return new(big.Int).Lsh(big.NewInt(1), n) }
+	sub := func(v *big.Int, k int64) *big.Int { return new(big.Int).Sub(v, big.NewInt(k)) }
+	offs := []*big.Int{p2(63), sub(p2(64), 1), sub(p2(64), 32), sub(p2(64), 33), p2(32), p2(40), sub(p2(256), 1), p2(64), new(big.Int).Add(p2(64), big.NewInt(1)), big.NewInt(0)}
+	sizes := []*big.Int{big.NewInt(0), big.NewInt(1), big.NewInt(2), big.NewInt(32), big.NewInt(33), p2(32), sub(p2(64), 1), sub(p2(256), 1)}
+	big32 := p2(32)
+	var out []c16PreCase
+	for op := 0; op < 256; op++ {
+		o := &c16Tab[op]
+		if !o.Valid || !o.HasMem {
+			continue
+		}
+		for ri, r := range o.MemRanges {
+			szs := sizes
+			if r.SizeSlot < 0 {
+				szs = []*big.Int{new(big.Int).SetUint64(r.ConstSize)}
+			}
+			for _, off := range offs {
+				for _, sz := range szs {
+					if off.Sign() == 0 && sz.Cmp(big32) < 0 {
+						continue // nothing adversarial
+					}
+					args := make([]*big.Int, o.MinStack)
+					for i := range args {
+						args[i] = new(big.Int)
+					}
+					if isCallFamily(byte(op)) {
+						args[0] = big.NewInt(100000)
+						args[1] = w.empties[0].Big()
+					}
+					args[r.Off] = off
+					if r.SizeSlot >= 0 {
+						args[r.SizeSlot] = sz
+					}
+					a := &asm{}
+					for i := len(args) - 1; i >= 0; i-- {
+						a.pushBig(args[i])
+					}
+					a.op(byte(op), opSTOP)
+					out = append(out, c16PreCase{Kind: "memop", Op: op, Code: hex.EncodeToString(a.b),
+						MustFail: sz.Sign() != 0 && (off.Cmp(big32) >= 0 || sz.Cmp(big32) >= 0),
+						Operands: fmt.Sprintf("range %d: offset %s size %s", ri, off, sz)})
+				}
+			}
+		}
+	}
+	return out
 }
 
 type c16PreRes struct {
@@ -201,6 +256,27 @@ func c16PreChild(c *Ctx) {
 	callOps := []byte{opCALL, opCALLCODE, opDELEGATECALL, opSTATICCALL}
 	for i := start; i < len(cases); i++ {
 		cs := cases[i]
+		if cs.Kind == "memop" {
+			code, _ := hex.DecodeString(cs.Code)
+			say("b %d 0", i)
+			am := account.NewManager(w.genesis, w.db)
+			am.GetAccount(w.slots[0]).SetCode(code)
+			evm := w.newEVM(am, vm.Config{})
+			res := measure(func() (r c16PreRes) {
+				ret, left, err := evm.Call(vm.AccountRef(w.eoa), w.slots[0], nil, c16PreEVMGas, new(big.Int))
+				r.Ran = true
+				r.Gas = c16PreEVMGas - left
+				r.RetLen = len(ret)
+				r.Outcome = "ok"
+				if err != nil {
+					r.Outcome = "err:" + c16Err(err)
+				}
+				return
+			})
+			js, _ := json.Marshal(res)
+			say("r %d 0 %s", i, js)
+			continue
+		}
 		in, _ := hex.DecodeString(cs.Input)
 		addr := common.BytesToAddress([]byte{byte(cs.Addr)})
 		p := vm.PrecompiledContracts[addr]
@@ -265,8 +341,10 @@ func c16PreChild(c *Ctx) {
 // ---------------------------------------------------------------- parent
 
 // c16PrePhase runs all structured precompile cases in children and turns the results into ops + oracle.
-func c16PrePhase(c *Ctx) {
+func c16PrePhase(c *Ctx, w *c16World) (memOpsClean bool) {
 	cases := c16PreCases(rand.New(rand.NewSource(c.Seed*7919+16)), c.Tier)
+	cases = append(c16MemOpCases(w), cases...)
+	memOpsClean = true
 	dir := filepath.Join(c.Out, "prechild")
 	os.RemoveAll(dir)
 	os.MkdirAll(filepath.Join(dir, "tmp"), 0755)
@@ -332,13 +410,48 @@ func c16PrePhase(c *Ctx) {
 		}
 		died[[2]int{curI, curP}] = c16CrashLine(stderr.String())
 		start, phase = curI, curP+1
-		if phase >= len(c16PrePhases) {
+		if phase >= len(c16PrePhases) || cases[curI].Kind == "memop" {
 			start, phase = curI+1, 0
 		}
 	}
 	c.Count(fmt.Sprintf("pre:child-restarts=%d", restarts))
 
 	for i, cs := range cases {
+		if cs.Kind == "memop" {
+			name := strings.ToLower(vm.OpCode(cs.Op).String())
+			replay := map[string]interface{}{"kind": "memop", "op": name, "code": cs.Code, "operands": cs.Operands, "gas": c16PreEVMGas}
+			what := fmt.Sprintf("%s with %s (contract code %s, gas %d)", vm.OpCode(cs.Op), cs.Operands, cs.Code, c16PreEVMGas)
+			c.Count("memop:" + name)
+			if msg, ok := died[[2]int{i, 0}]; ok {
+				memOpsClean = false
+				low := strings.ToLower(msg)
+				if strings.Contains(low, "out of memory") || strings.Contains(low, "cannot allocate") {
+					c.Fail("c16/alloc-not-gas-bounded/"+name+"/oom", what+": the process ran out of its address space: "+msg, replay)
+				} else {
+					c.Fail("c16/panic/memory-operand-"+name+"-process-died", what+": the process died: "+msg, replay)
+				}
+				continue
+			}
+			res := results[i][0]
+			if res == nil {
+				c.Count("memop:not-run")
+				continue
+			}
+			c.Count("memop:outcome=" + strings.SplitN(res.Outcome, ":", 2)[0])
+			switch {
+			case strings.HasPrefix(res.Outcome, "panic:"):
+				memOpsClean = false
+				c.Fail("c16/panic/memory-operand-"+name, what+": panic "+strings.TrimPrefix(res.Outcome, "panic:"), replay)
+			case cs.MustFail && res.Outcome == "ok":
+				memOpsClean = false
+				c.Fail("c16/memory-operand-not-refused/"+name, what+": the call succeeded although the operands name at least 4 GiB of memory", replay)
+			}
+			if bound := uint64(8<<20) + 64*res.Gas; res.Alloc > bound {
+				memOpsClean = false
+				c.Fail("c16/alloc-not-gas-bounded/"+name, fmt.Sprintf("%s: %d bytes allocated for %d gas (bound %d)", what, res.Alloc, res.Gas, bound), replay)
+			}
+			continue
+		}
 		in, _ := hex.DecodeString(cs.Input)
 		replay := map[string]interface{}{"precompile": cs.Addr, "input": cs.Input, "kind": cs.Kind}
 		c.Count("pre:kind=" + cs.Kind)
@@ -404,6 +517,7 @@ func c16PrePhase(c *Ctx) {
 			c.Op(fmt.Sprintf("pregas %d %d", cs.Addr, len(in)), fmt.Sprintf("gas=%d sizeerr=%d", d.Gas, b01(d.Outcome == "err:bad-elliptic-curve-pairing-size")))
 		}
 	}
+	return memOpsClean
 }
 
 // c16CrashLine: the line of a Go crash dump that says what happened
